@@ -55,6 +55,7 @@ static std::string run_history(Ctx& c, size_t ii, const std::vector<uint64_t>& t
       GenCfg cfg; cfg.budget = 60;
       Value retv = gen_value(*M.ret_donor, tp, cfg);
       rpc_state().script[(int)mi] = retv;
+      if (M.echo_arg >= 0) retv = args.kids[(size_t)M.echo_arg];   // echo handlers return (a reference to) their own argument
       size_t log_before = rpc_state().log.size(), rep_before = conn->rep.out.size(), req_before = conn->req.out.size();
       long runs_before = conn->dispatch_runs;
       conn->pumped = false;
@@ -91,7 +92,8 @@ static std::string run_history(Ctx& c, size_t ii, const std::vector<uint64_t>& t
           if (rpc_state().log.size() != log_before + 2) return fmt("handler-count: %s.%s: %zu handler invocations for one call and one nested call", I.name.c_str(), M.name.c_str(), rpc_state().log.size() - log_before);
           const RpcCall& inner = rpc_state().log[log_before];
           if (inner.method != (int)mi || !same_value(*argsH, inner.args, args2)) return fmt("wrong-arguments: nested call of %s.%s: handler saw %s, caller passed %s", I.name.c_str(), M.name.c_str(), to_text(*argsH, inner.args).c_str(), to_text(*argsH, args2).c_str());
-          if (r2.status != 0 || !same_value(*M.ret_proto, r2.value, retv)) return fmt("wrong-return: nested call of %s.%s returned %s (%s), handler produced %s", I.name.c_str(), M.name.c_str(), to_text(*M.ret_proto, r2.value).c_str(), err_name(r2.status), to_text(*M.ret_proto, retv).c_str());
+          const Value& want2 = M.echo_arg >= 0 ? args2.kids[(size_t)M.echo_arg] : retv;
+          if (r2.status != 0 || !same_value(*M.ret_proto, r2.value, want2)) return fmt("wrong-return: nested call of %s.%s returned %s (%s), handler produced %s", I.name.c_str(), M.name.c_str(), to_text(*M.ret_proto, r2.value).c_str(), err_name(r2.status), to_text(*M.ret_proto, want2).c_str());
           c.rep.label("call:with-nested-dispatch-of-same-method");
         } else if (rpc_state().log.size() != log_before + 1) return fmt("handler-count: %s.%s: %zu handler invocations for one call", I.name.c_str(), M.name.c_str(), rpc_state().log.size() - log_before);
         const RpcCall& call = rpc_state().log.back();
@@ -106,6 +108,8 @@ static std::string run_history(Ctx& c, size_t ii, const std::vector<uint64_t>& t
           Decoded dr = ref_decode(*M.ret_handler, conn->rep.out.data() + rep_before, conn->rep.out.size() - rep_before);
           if (!dr.ok || dr.consumed != conn->rep.out.size() - rep_before) return fmt("reply-framing: %s.%s reply is not exactly one encoded return value", I.name.c_str(), M.name.c_str());
         }
+        if (M.echo_arg >= 0) c.rep.label("call:handler-returns-reference-to-argument");
+        if (M.name.rfind("twin.", 0) == 0) c.rep.label("call:method-of-second-interface-in-the-same-table");
         ok_methods.insert(mi); any_ok = true;
         hist += M.name + "(ok) ";
         c.rep.label("call:ok");
